@@ -246,6 +246,8 @@ pub unsafe extern "C" fn jsonnet_evaluate_file(
 	filename: *const c_char,
 	error: &mut c_int,
 ) -> *const c_char {
+	// Nested imports, ext code and TLA code are resolved through the entered state
+	let _entered = vm.state.try_enter();
 	let filename = unsafe { parse_path(CStr::from_ptr(filename)) };
 	match vm
 		.state
@@ -280,6 +282,8 @@ pub unsafe extern "C" fn jsonnet_evaluate_snippet(
 	snippet: *const c_char,
 	error: &mut c_int,
 ) -> *const c_char {
+	// Nested imports, ext code and TLA code are resolved through the entered state
+	let _entered = vm.state.try_enter();
 	let filename = unsafe { CStr::from_ptr(filename) };
 	let snippet = unsafe { CStr::from_ptr(snippet) };
 	match vm
@@ -339,6 +343,8 @@ pub unsafe extern "C" fn jsonnet_evaluate_file_multi(
 	filename: *const c_char,
 	error: &mut c_int,
 ) -> *const c_char {
+	// Nested imports, ext code and TLA code are resolved through the entered state
+	let _entered = vm.state.try_enter();
 	let filename = unsafe { parse_path(CStr::from_ptr(filename)) };
 	match vm
 		.state
@@ -367,6 +373,8 @@ pub unsafe extern "C" fn jsonnet_evaluate_snippet_multi(
 	snippet: *const c_char,
 	error: &mut c_int,
 ) -> *const c_char {
+	// Nested imports, ext code and TLA code are resolved through the entered state
+	let _entered = vm.state.try_enter();
 	let filename = unsafe { CStr::from_ptr(filename) };
 	let snippet = unsafe { CStr::from_ptr(snippet) };
 	match vm
@@ -421,6 +429,8 @@ pub unsafe extern "C" fn jsonnet_evaluate_file_stream(
 	filename: *const c_char,
 	error: &mut c_int,
 ) -> *const c_char {
+	// Nested imports, ext code and TLA code are resolved through the entered state
+	let _entered = vm.state.try_enter();
 	let filename = unsafe { parse_path(CStr::from_ptr(filename)) };
 	match vm
 		.state
@@ -449,6 +459,8 @@ pub unsafe extern "C" fn jsonnet_evaluate_snippet_stream(
 	snippet: *const c_char,
 	error: &mut c_int,
 ) -> *const c_char {
+	// Nested imports, ext code and TLA code are resolved through the entered state
+	let _entered = vm.state.try_enter();
 	let filename = unsafe { CStr::from_ptr(filename) };
 	let snippet = unsafe { CStr::from_ptr(snippet) };
 	match vm
